@@ -126,11 +126,19 @@ SPEC int pre_sqrt_ext(T_u x) { return !(x_cls(x) == CLS_FIN && x_num(x) < 0); }
 SPEC uint32_t capexp(uint32_t e, uint32_t cap) { return e > cap ? cap : e; }
 SPEC ex_t e_add_2exp(T_u x, uint32_t e) { return x_num(x) + pow2(capexp(e, CAP_ADD)); }
 SPEC ex_t e_sub_2exp(T_u x, uint32_t e) { return x_num(x) - pow2(capexp(e, CAP_ADD)); }
-SPEC ex_t e_mul_2exp(T_u x, uint32_t e) { return x_num(x) * pow2(capexp(e, CAP_MUL)); }
+/* x * 2^e as a shift of the two's-complement image (no overflow: |x| * 2^CAP_MUL fits ex_t) */
+SPEC ex_t shl_ex(ex_t a, uint32_t e) {
+#if EX_W == 64
+  return (ex_t)((uint64_t)a << e);
+#else
+  return (ex_t)((unsigned __int128)a << e);
+#endif
+}
+SPEC ex_t e_mul_2exp(T_u x, uint32_t e) { return shl_ex(x_num(x), capexp(e, CAP_MUL)); }
 /* x / 2^e : rational */
 SPEC int c_div_2exp(T_u x, uint32_t e, ex_t t) {
   if (e > (uint32_t)CAP_DIV) return t > 0 ? -1 : t < 0 ? 1 : sgn_ex(x_num(x));
-  return sgn_ex(x_num(x) - t * pow2(e));
+  return cmp_ex(x_num(x), shl_ex(t, e));
 }
 /* x mod 2^e into [0, 2^e) and into [-2^(e-1), 2^(e-1)) */
 SPEC ex_t e_umod_2exp(T_u x, uint32_t e) {
@@ -142,6 +150,50 @@ SPEC ex_t e_smod_2exp(T_u x, uint32_t e) {
   { ex_t m = pow2(e), r = x_num(x) % m; if (r < 0) r += m; return (e > 0 && r >= pow2(e - 1)) ? r - m : r; }
 }
 SPEC int ecls_mod_2exp(T_u x) { int c = x_cls(x); return is_inf(c) ? CLS_NAN : c; }
+
+/* ------------------------------------------------------------------ fused multiply-add / -sub: to (+|-) x*y */
+SPEC int ecls_muladd(T_u to0, T_u x, T_u y, int sub) {
+  int p = ecls_mul(x, y), a = x_cls(to0);
+  if (sub) p = flip(p);
+  if (a == CLS_NAN || p == CLS_NAN) return CLS_NAN;
+  if (is_inf(a) && is_inf(p)) return a == p ? a : CLS_NAN;
+  return is_inf(a) ? a : p;
+}
+SPEC ex_t e_add_mul(T_u to0, T_u x, T_u y) { return x_num(to0) + x_num(x) * x_num(y); }
+SPEC ex_t e_sub_mul(T_u to0, T_u x, T_u y) { return x_num(to0) - x_num(x) * x_num(y); }
+/* inf + (-inf) is left unchecked by the policies: the caller's duty */
+SPEC int pre_muladd_ext(T_u to0, T_u x, T_u y, int sub) {
+  int p = ecls_mul(x, y), a = x_cls(to0);
+  if (sub) p = flip(p);
+  return !(is_inf(a) && is_inf(p) && a != p);
+}
+
+/* ------------------------------------------------------------------ classification and comparisons */
+#define VR_EMPTY 0u
+/* sign as a Result_Relation: VR_LT / VR_EQ / VR_GT; NaN has none */
+SPEC uint32_t rel_of(int s) { return s < 0 ? V_LT : s > 0 ? V_GT : V_EQ; }
+SPEC uint32_t spec_sgn(T_u x) { return x_cls(x) == CLS_NAN ? VR_EMPTY : rel_of(x_sgn(x)); }
+/* order of two extended values: -1, 0, 1; 2 = unordered (NaN) */
+SPEC int x_cmp(T_u x, T_u y) {
+  int a = x_cls(x), b = x_cls(y);
+  if (a == CLS_NAN || b == CLS_NAN) return 2;
+  if (a == CLS_PINF) return b == CLS_PINF ? 0 : 1;
+  if (a == CLS_MINF) return b == CLS_MINF ? 0 : -1;
+  if (b == CLS_PINF) return -1;
+  if (b == CLS_MINF) return 1;
+  return cmp_ex(x_num(x), x_num(y));
+}
+SPEC uint32_t spec_cmp(T_u x, T_u y) { return x_cmp(x, y) == 2 ? VR_EMPTY : rel_of(x_cmp(x, y)); }
+/* classify(v, nan, inf, sign): which of the three questions are asked determines the answer's precision */
+SPEC uint32_t spec_classify(T_u v, int nan, int inf, int sign) {
+  int c = x_cls(v);
+  if (c == CLS_NAN && (nan || sign)) return VC_NAN;
+  if (!inf && !sign) return V_LGE;
+  if (c == CLS_MINF) return inf ? (V_EQ | VC_MINUS_INFINITY) : V_LT;
+  if (c == CLS_PINF) return inf ? (V_EQ | VC_PLUS_INFINITY) : V_GT;
+  if (sign) return rel_of(sgn_ex(x_num(v)));
+  return V_LGE;
+}
 
 /* ================================================================== the contract table
  * C_<op>_PRE(X, Y, EXP)                     operand precondition (on values)
@@ -224,6 +276,48 @@ SPEC int ecls_mod_2exp(T_u x) { int c = x_cls(x); return is_inf(c) ? CLS_NAN : c
 #define C_smod_2exp_POSTS(R, TO, TO0, X, Y, EXP, DIR) POSTS_INT(R, TO, TO0, DIR, ecls_mod_2exp(X), e_smod_2exp(X, EXP), 0)
 #define C_smod_2exp_ext_PRE(X, Y, EXP) (!is_inf(x_cls(X)) && EXP >= 1)
 #define C_smod_2exp_ext_POSTS(R, TO, TO0, X, Y, EXP, DIR) POSTS_INT(R, TO, TO0, DIR, ecls_mod_2exp(X), e_smod_2exp(X, EXP), 0)
+
+#define C_add_mul_PRE(X, Y, EXP) (x_in_range(X) && x_in_range(Y))
+#define C_add_mul_POSTS(R, TO, TO0, X, Y, EXP, DIR) POSTS_INT(R, TO, TO0, DIR, ecls_muladd(TO0, X, Y, 0), e_add_mul(TO0, X, Y), 1)
+#define C_add_mul_ext_PRE(X, Y, EXP) (1)
+#define C_add_mul_ext_POSTS(R, TO, TO0, X, Y, EXP, DIR) POSTS_INT(R, TO, TO0, DIR, ecls_muladd(TO0, X, Y, 0), e_add_mul(TO0, X, Y), 1)
+#define C_sub_mul_PRE(X, Y, EXP) (x_in_range(X) && x_in_range(Y))
+#define C_sub_mul_POSTS(R, TO, TO0, X, Y, EXP, DIR) POSTS_INT(R, TO, TO0, DIR, ecls_muladd(TO0, X, Y, 1), e_sub_mul(TO0, X, Y), 1)
+#define C_sub_mul_ext_PRE(X, Y, EXP) (1)
+#define C_sub_mul_ext_POSTS(R, TO, TO0, X, Y, EXP, DIR) POSTS_INT(R, TO, TO0, DIR, ecls_muladd(TO0, X, Y, 1), e_sub_mul(TO0, X, Y), 1)
+
+SPEC int ecls_of_vc(uint32_t c) { return c == VC_PLUS_INFINITY ? CLS_PINF : c == VC_MINUS_INFINITY ? CLS_MINF : CLS_NAN; }
+#define C_assign_special_PRE(C) ((C) == VC_PLUS_INFINITY || (C) == VC_MINUS_INFINITY || (C) == VC_NAN)
+#define C_assign_special_POSTS(R, TO, TO0, C, DIR) POSTS_INT(R, TO, TO0, DIR, ecls_of_vc(C), 0, 0)
+#define C_classify_POSTS(R, X, NAN_, INF_, SIGN_) POST(encoding_sane, enc_sane()) POST(value, (R) == spec_classify(X, NAN_, INF_, SIGN_))
+#define C_is_nan_PRE(X, Y, EXP) (1)
+#define C_is_nan_POSTS(R, TO, TO0, X, Y, EXP, DIR) POST(value, ((R) != 0) == (x_cls(X) == CLS_NAN))
+#define C_is_minf_PRE(X, Y, EXP) (1)
+#define C_is_minf_POSTS(R, TO, TO0, X, Y, EXP, DIR) POST(value, ((R) != 0) == (x_cls(X) == CLS_MINF))
+#define C_is_pinf_PRE(X, Y, EXP) (1)
+#define C_is_pinf_POSTS(R, TO, TO0, X, Y, EXP, DIR) POST(value, ((R) != 0) == (x_cls(X) == CLS_PINF))
+#define C_is_int_PRE(X, Y, EXP) (1)
+#define C_is_int_POSTS(R, TO, TO0, X, Y, EXP, DIR) POST(value, ((R) != 0) == (x_cls(X) != CLS_NAN))
+#define C_sgn_PRE(X, Y, EXP) (x_in_range(X))
+#define C_sgn_POSTS(R, TO, TO0, X, Y, EXP, DIR) POST(value, (R) == spec_sgn(X))
+#define C_sgn_ext_PRE(X, Y, EXP) (1)
+#define C_sgn_ext_POSTS(R, TO, TO0, X, Y, EXP, DIR) POST(value, (R) == spec_sgn(X))
+#define C_cmp_PRE(X, Y, EXP) (x_in_range(X) && x_in_range(Y))
+#define C_cmp_POSTS(R, TO, TO0, X, Y, EXP, DIR) POST(value, (R) == spec_cmp(X, Y))
+#define C_cmp_ext_PRE(X, Y, EXP) (1)
+#define C_cmp_ext_POSTS(R, TO, TO0, X, Y, EXP, DIR) POST(value, (R) == spec_cmp(X, Y))
+#define C_lt_ext_PRE(X, Y, EXP) (1)
+#define C_lt_ext_POSTS(R, TO, TO0, X, Y, EXP, DIR) POST(value, ((R) != 0) == (x_cmp(X, Y) == -1))
+#define C_le_ext_PRE(X, Y, EXP) (1)
+#define C_le_ext_POSTS(R, TO, TO0, X, Y, EXP, DIR) POST(value, ((R) != 0) == (x_cmp(X, Y) == -1 || x_cmp(X, Y) == 0))
+#define C_gt_ext_PRE(X, Y, EXP) (1)
+#define C_gt_ext_POSTS(R, TO, TO0, X, Y, EXP, DIR) POST(value, ((R) != 0) == (x_cmp(X, Y) == 1))
+#define C_ge_ext_PRE(X, Y, EXP) (1)
+#define C_ge_ext_POSTS(R, TO, TO0, X, Y, EXP, DIR) POST(value, ((R) != 0) == (x_cmp(X, Y) == 1 || x_cmp(X, Y) == 0))
+#define C_eq_ext_PRE(X, Y, EXP) (1)
+#define C_eq_ext_POSTS(R, TO, TO0, X, Y, EXP, DIR) POST(value, ((R) != 0) == (x_cmp(X, Y) == 0))
+#define C_ne_ext_PRE(X, Y, EXP) (1)
+#define C_ne_ext_POSTS(R, TO, TO0, X, Y, EXP, DIR) POST(value, ((R) != 0) == (x_cmp(X, Y) != 0))
 
 #if defined(VERIF_CBMC)
 #define CONTRACT_UN(OP)  uint32_t FN_##OP(T_u *to, const T_u *x, uint32_t dir) \
@@ -345,6 +439,75 @@ CONTRACT_EXP(smod_2exp)
 #endif
 #ifdef FN_smod_2exp_ext
 CONTRACT_EXP(smod_2exp_ext)
+#endif
+/* fused ops read *to: its entry value is an operand (finite for the native layer) */
+#define CONTRACT_FMA(OP, SUB, NATIVE) uint32_t FN_##OP(T_u *to, const T_u *x, const T_u *y, uint32_t dir) \
+  PRE(dir, dir_valid(dir)) PRE(operands, C_##OP##_PRE(*x, *y, 0)) \
+  PRE(accumulator, NATIVE ? x_in_range(*to) : pre_muladd_ext(*to, *x, *y, SUB)) ASSIGNS(*to) C_##OP##_POSTS(RET, *to, OLD(*to), *x, *y, 0, dir);
+#ifdef FN_add_mul
+CONTRACT_FMA(add_mul, 0, 1)
+#endif
+#ifdef FN_add_mul_ext
+CONTRACT_FMA(add_mul_ext, 0, 0)
+#endif
+#ifdef FN_sub_mul
+CONTRACT_FMA(sub_mul, 1, 1)
+#endif
+#ifdef FN_sub_mul_ext
+CONTRACT_FMA(sub_mul_ext, 1, 0)
+#endif
+/* assign_special(v, class, dir): the exact value IS the special value named by the class */
+#ifdef FN_assign_special
+uint32_t FN_assign_special(T_u *to, uint32_t c, uint32_t dir)
+  PRE(dir, dir_valid(dir)) PRE(class, C_assign_special_PRE(c)) ASSIGNS(*to) C_assign_special_POSTS(RET, *to, OLD(*to), c, dir);
+#endif
+/* predicates: the answer equals the predicate on the abstract values */
+#ifdef FN_classify
+uint32_t FN_classify(const T_u *x, _Bool nan, _Bool inf, _Bool sign) ASSIGNS() C_classify_POSTS(RET, *x, nan, inf, sign);
+#endif
+#define CONTRACT_PRED1(OP, RT) RT FN_##OP(const T_u *x) PRE(operands, C_##OP##_PRE(*x, 0, 0)) ASSIGNS() C_##OP##_POSTS(RET, 0, 0, *x, 0, 0, 0);
+#define CONTRACT_PRED2(OP, RT) RT FN_##OP(const T_u *x, const T_u *y) PRE(operands, C_##OP##_PRE(*x, *y, 0)) ASSIGNS() C_##OP##_POSTS(RET, 0, 0, *x, *y, 0, 0);
+#ifdef FN_is_nan
+CONTRACT_PRED1(is_nan, _Bool)
+#endif
+#ifdef FN_is_minf
+CONTRACT_PRED1(is_minf, _Bool)
+#endif
+#ifdef FN_is_pinf
+CONTRACT_PRED1(is_pinf, _Bool)
+#endif
+#ifdef FN_is_int
+CONTRACT_PRED1(is_int, _Bool)
+#endif
+#ifdef FN_sgn
+CONTRACT_PRED1(sgn, uint32_t)
+#endif
+#ifdef FN_sgn_ext
+CONTRACT_PRED1(sgn_ext, uint32_t)
+#endif
+#ifdef FN_cmp
+CONTRACT_PRED2(cmp, uint32_t)
+#endif
+#ifdef FN_cmp_ext
+CONTRACT_PRED2(cmp_ext, uint32_t)
+#endif
+#ifdef FN_lt_ext
+CONTRACT_PRED2(lt_ext, _Bool)
+#endif
+#ifdef FN_le_ext
+CONTRACT_PRED2(le_ext, _Bool)
+#endif
+#ifdef FN_gt_ext
+CONTRACT_PRED2(gt_ext, _Bool)
+#endif
+#ifdef FN_ge_ext
+CONTRACT_PRED2(ge_ext, _Bool)
+#endif
+#ifdef FN_eq_ext
+CONTRACT_PRED2(eq_ext, _Bool)
+#endif
+#ifdef FN_ne_ext
+CONTRACT_PRED2(ne_ext, _Bool)
 #endif
 #endif /* VERIF_CBMC */
 #endif
